@@ -27,6 +27,9 @@
    processor.Spawn (SetChildKind, chain entered after the spawning action), end to end through the chain
    [real split action, recording action with the rule] on one parent event {"zz":[events...]} -- time-out is
    the only kind exempt from the selector (ActionChain.tla: M_OnlyTimeoutExempt, mutant rejected by TLC).
+   Multi-byte characters (DoIf part U): contains_any (meaning per CHARACTER) and the substring operators over
+   characters that share a UTF-8 lead byte (e-acute/e-grave, EURO/RUBLE/TRADE MARK, Cyrillic), only a
+   continuation byte (e-acute/COPYRIGHT) and 4-byte characters; mutant "256-entry byte table" rejected by TLC.
    ts_cmp against `value: now` (DoIf part N): value_shift of -1h / 0 / +1h, update_interval 10s / 1m, event
    times rendered relative to the moment of the replay at +-30 / 90 / 150 minutes; the documented threshold is
    now + value_shift + [0, update_interval], events within 20 minutes of it are not judged and all events in
@@ -51,7 +54,10 @@ import vlib
 
 LEVEL = "model_checking"
 
-CH = {1: "a", 2: "A", 3: "\u0130", 4: "i", 5: "b"}
+CH = {1: "a", 2: "A", 3: "\u0130", 4: "i", 5: "b",
+      # multi-byte characters of part U (the same table as CharBytes in specs/DoIf.tla)
+      40: "\u00e9", 41: "\u00e8", 42: "\u20ac", 43: "\u20bd", 44: "\u2122", 45: "\u0451", 46: "\u044a", 47: "\u043f",
+      48: "\u00a9", 49: "\U0001f600", 50: "\U0001f601"}
 MODES = {"and": 0, "or": 1, "and_prefix": 2, "or_prefix": 3}
 
 
@@ -574,9 +580,11 @@ def run(ctx):
         mu = ctx.tlc("ActionChain", cfgname, timeout=300, deadlock=False, name="ActionChain/" + cfgname[12:-4])
         if mu.ok or mu.violated != "SelectorDecides":
             raise vlib.Infra("spec mutant %s was not rejected by TLC: %s" % (what, mu.violated))
-    mu = ctx.tlc("DoIf", "DoIf_mutant_shift.cfg", timeout=300, deadlock=False, name="DoIf/mutant_shift")
-    if mu.ok or mu.violated != "ImplRefinesDecl":
-        raise vlib.Infra("spec mutant ~M_ShiftOnce (value_shift applied twice) was not rejected by TLC: %s" % mu.violated)
+    for cfgname, what in (("DoIf_mutant_shift.cfg", "~M_ShiftOnce (value_shift applied twice)"),
+                          ("DoIf_mutant_bytetable.cfg", "~M_ContainsAnyRunes (contains_any over a byte table)")):
+        mu = ctx.tlc("DoIf", cfgname, timeout=300, deadlock=False, name="DoIf/" + cfgname[5:-4])
+        if mu.ok or mu.violated != "ImplRefinesDecl":
+            raise vlib.Infra("spec mutant %s was not rejected by TLC: %s" % (what, mu.violated))
     # spec mutant: the repaired defect D11 switched back on must be rejected by TLC (ImplMatchesDecl)
     mu = ctx.tlc("MatchFields", "MatchFields_mutant_d11.cfg", timeout=600, deadlock=False, name="MatchFields/mutant_d11")
     if mu.ok or mu.violated != "ImplMatchesDecl":
